@@ -2,7 +2,7 @@
 import re
 
 from pvrules.mir import is_call, peel, show, strip_generics, subterms
-from pvrules.rules import const_int, count_range, count_range_region, effect_calls, elem_of, rejecting, try_continue_block, PURE
+from pvrules.rules import is_pos_inf_const, const_int, count_range, count_range_region, effect_calls, elem_of, rejecting, try_continue_block, PURE
 from . import text_common as tc
 
 LEVEL = "other"
@@ -224,6 +224,38 @@ def _opt_const(f, t):
     return t
 
 
+def _any_bucket_is_pos_inf(f, t, h_of):
+    """t = Iterator::any(<iteration over get_bucket(h)>, |b| b.upper_bound() is +Inf)."""
+    src = peel(t[2][0], transparent=["slice::iter", "IntoIterator::into_iter", "Deref::deref"])
+    if not (is_call(src, "get_bucket") and h_of(src[2][0])):
+        return False
+    cl_t = peel(t[2][1], transparent=[])
+    cl = f.closure(cl_t[2]) if (isinstance(cl_t, tuple) and cl_t and cl_t[0] == "agg" and cl_t[1] == "closure") else None
+    if cl is None:
+        return False
+
+    def ub(z):
+        z = peel(z)
+        return is_call(z, ["Bucket::upper_bound", "get_upper_bound"]) and peel(z[2][0]) in (("param", 2), ("deref", ("param", 2)))
+    r = peel(cl.term_local(0), transparent=[])
+    if isinstance(r, tuple) and r and r[0] == "binop" and r[1] == "Eq":
+        infs = [z for z in (r[2], r[3]) if is_pos_inf_const(z)]
+        return len(infs) == 1 and len([z for z in (r[2], r[3]) if ub(z)]) == 1
+    if isinstance(r, tuple) and r and r[0] == "var":
+        # `x.is_sign_positive() && x.is_infinite()` (either order): false on the first test's false edge, the second test otherwise
+        alts = cl.var_alts(r[1])
+        consts = [a for a in alts if a[0] == "const"]
+        calls = [a for a in alts if is_call(a, ["f64::is_sign_positive", "f64::is_infinite"])]
+        if len(alts) == 2 and len(consts) == 1 and consts[0][1] == "false" and len(calls) == 1 and ub(calls[0][2][0]):
+            second = strip_generics(calls[0][1]).split("::")[-1]
+            first = {"is_infinite": "is_sign_positive", "is_sign_positive": "is_infinite"}[second]
+            for bi in cl.reachable_blocks():
+                be = cl.bool_edges(bi)
+                if be and is_call(be[0], "f64::" + first) and ub(be[0][2][0]) and cl.edge_dominates(bi, be[1], calls[0][3]):
+                    return True
+    return False
+
+
 def rule_R4(ctx, f):
     rid = "R4"
     ctx.rule(rid, "sample layout table: per type arm, the write_sample calls have (suffix, extra label, value source): counter/gauge (none, none, payload value); "
@@ -246,8 +278,9 @@ def rule_R4(ctx, f):
     metric = ("field", ("downcast", mnext[0].result_term(), "Some"), "0")
     stop = [mnext[0].bb]
     targets = list(arms.values()) + ([other] if other is not None else [])
+    regions = tc.arm_regions(b, f, sw, arms, other, stop)
 
-    def desc(c):
+    def desc(c, region=None):
         suffix = _opt_const(f, c.args[2])
         suffix = tc.const_str(peel(suffix)) if suffix is not None else None
         lab = _opt_const(f, c.args[4])
@@ -255,6 +288,8 @@ def rule_R4(ctx, f):
         if lab is not None and lab[0] == "agg":
             labname, labval = peel(lab[3][0]), peel(lab[3][1], transparent=tc.DEREFS)
         val = c.args[5]
+        if region is not None:
+            val = tc.value_in_region(b, val, region)
         cast = False
         if val[0] == "cast":
             cast, val = True, val[2]
@@ -271,17 +306,17 @@ def rule_R4(ctx, f):
     for ty, getter in (("COUNTER", "get_counter"), ("GAUGE", "get_gauge")):
         if ty not in arms:
             continue
-        reg = tc.exclusive_region(b, arms[ty], targets, stop)
+        reg = regions.get(ty, set())
         ws = _ws_calls(b, reg)
         ok = len(ws) == 1
         if ok:
-            s, ln, lv, val, cast = desc(ws[0])
+            s, ln, lv, val, cast = desc(ws[0], reg)
             ok = s is None and ln is None and not cast and is_call(val, ["get_value", "Counter::value", "Gauge::value", "MessageFieldExt::get_value"]) and is_call(peel(val[2][0], transparent=tc.DEREFS), getter) \
                 and peel(peel(val[2][0], transparent=tc.DEREFS)[2][0]) == metric and count_range_region(b, [ws[0].bb], arms[ty], stop) == (1, 1)
             common(ws[0], ty)
         ctx.ob(rid, ty + "|layout", ok, "a %s sample is one line: name, labels, %s().get_value()" % (ty.lower(), getter), site=ws[0].span if ws else b.span_of_block(arms[ty]))
     if "HISTOGRAM" in arms:
-        reg = tc.exclusive_region(b, arms["HISTOGRAM"], targets, stop)
+        reg = regions.get("HISTOGRAM", set())
         ws = _ws_calls(b, reg)
         ctx.ob(rid, "HISTOGRAM|four-sites", len(ws) == 4, "histogram arm must have 4 write_sample sites: bucket, +Inf bucket, _sum, _count (found %d)" % len(ws), site=b.span_of_block(arms["HISTOGRAM"]))
         if len(ws) == 4:
@@ -312,6 +347,7 @@ def rule_R4(ctx, f):
                 oki = named_const(d[1], "BUCKET_LABEL") and is_call(d[3], ["get_sample_count", "sample_count"]) and h_of(d[3][2][0]) and d[4]
                 # guarded by !inf_seen where inf_seen is set iff is_sign_positive && is_infinite of an upper bound
                 guard = False
+                any_form = False
                 for bi in b.reachable_blocks():
                     be = b.bool_edges(bi)
                     if be and b.dominates(bi, ci.bb):
@@ -319,6 +355,10 @@ def rule_R4(ctx, f):
                         neg = False
                         if cnd[0] == "unop" and cnd[1] == "Not":
                             cnd, neg = cnd[2], True
+                        if is_call(cnd, "Iterator::any") and _any_bucket_is_pos_inf(f, cnd, h_of):
+                            # `let inf_seen = h.get_bucket().iter().any(|b| b.upper_bound() == f64::INFINITY)`: computed from this sample's buckets, nothing to reset
+                            guard = b.edge_dominates(bi, be[2], ci.bb)
+                            any_form = cnd[3] in reg
                         if cnd[0] == "var" and b.local_ty(cnd[1]) == "bool":
                             alts = b.var_alts(cnd[1])
                             flag_locals = [cnd[1]]
@@ -338,7 +378,7 @@ def rule_R4(ctx, f):
                                 eqs = other[0] if len(other) == 1 else None
                                 okeq = False
                                 if eqs is not None and eqs[0] == "binop" and eqs[1] == "Eq":
-                                    infs = [z for z in (eqs[2], eqs[3]) if isinstance(z, tuple) and z[0] in ("const", "constdef") and re.search(r"INFINITY|^\+?inf", str(z[1]))]
+                                    infs = [z for z in (eqs[2], eqs[3]) if is_pos_inf_const(z)]
                                     ubs = [z for z in (eqs[2], eqs[3]) if is_call(peel(z), ["Bucket::upper_bound", "get_upper_bound"])]
                                     okeq = len(infs) == 1 and len(ubs) == 1
                                 edge = be[1] if neg else be[2]
@@ -347,7 +387,7 @@ def rule_R4(ctx, f):
                             if vals == ["false", "true"] and len(eqalts) == 1 and len(set(alts)) == 3:
                                 # `inf_seen = inf_seen || upper_bound == f64::INFINITY`: true stays true, otherwise the comparison
                                 eqs = eqalts[0]
-                                infs = [z for z in (eqs[2], eqs[3]) if isinstance(z, tuple) and z[0] in ("const", "constdef") and re.search(r"INFINITY|^\+?inf", str(z[1]))]
+                                infs = [z for z in (eqs[2], eqs[3]) if is_pos_inf_const(z)]
                                 ubs = [z for z in (eqs[2], eqs[3]) if is_call(peel(z), ["Bucket::upper_bound", "get_upper_bound"])]
                                 tb = [dd[1] for l_ in flag_locals for dd in b.defs()[l_] if dd[0] == "assign" and dd[3].get("ops") and dd[3]["ops"][0].get("val") == "true"]
                                 # the constant `true` is assigned only where the flag was already true
@@ -375,7 +415,7 @@ def rule_R4(ctx, f):
                             inits = [dd[1] for dd in b.defs()[cnd[1]] if dd[0] == "assign" and dd[3].get("ops") and dd[3]["ops"][0].get("val") == "false"]
                             region = b.reach(arms["HISTOGRAM"], avoid_blocks=stop)
                             fresh = bool(inits) and all(x in region for x in inits) and b.all_paths_pass(arms["HISTOGRAM"], inits, dst_set={cb.bb, ci.bb})
-                ctx.ob(rid, "HISTOGRAM|inf-flag-per-sample", fresh,
+                ctx.ob(rid, "HISTOGRAM|inf-flag-per-sample", fresh or (any_form and guard),
                        "the `+Inf seen` flag must be reset to false for every sample of the family (inside the per-metric loop, before its buckets are written)", site=ci.span)
                 ctx.ob(rid, "HISTOGRAM|inf-line", oki and guard, "the implicit +Inf bucket must be written with the sample count exactly when no explicit +Inf bound was seen", site=ci.span)
                 d = ds[sm[0]]
@@ -386,7 +426,7 @@ def rule_R4(ctx, f):
                 order = order and count_range_region(b, [cs.bb], arms["HISTOGRAM"], stop) == (1, 1) and count_range_region(b, [cc.bb], arms["HISTOGRAM"], stop) == (1, 1)
                 ctx.ob(rid, "HISTOGRAM|order", order, "lines must come in the order buckets, +Inf, _sum, _count; _sum and _count exactly once", site=cs.span)
     if "SUMMARY" in arms:
-        reg = tc.exclusive_region(b, arms["SUMMARY"], targets, stop)
+        reg = regions.get("SUMMARY", set())
         ws = _ws_calls(b, reg)
         ds = [desc(c) for c in ws]
         q = [d for d in ds if d[0] is None and d[1] is not None]
